@@ -404,6 +404,9 @@ func c03c(c *Ctx) {
 		c.Bad(name+"/switch-chunk", c.W.FuncPos(fn), "cannot find the switch chunk (no statements)")
 		return
 	}
+	// a switch whose branches all decline (no case matches and there is no default, or nothing
+	// has a body) goes on after the switch: the switch chunk returns where the statement returns
+	c.Check(swChunk.retID == splitR, name+"/switch-chunk-returns-after-switch", c.W.Pos(swChunk.a.Pos()), "the switch chunk returns to the statement's return id", "the switch chunk returns to "+pretty(swChunk.retID)+", expected the return id of the statement ("+pretty(splitR)+"): when no case matches, execution would not continue after the switch")
 	for _, r := range returnsOf(fn) {
 		dest, isJump := c.structFieldOf(fn, r.Results[1], "emitter", "jump", "destChunkID", r)
 		c.Check(isJump && dest == swChunk.id, name+"/entry-jump", c.W.Pos(r.Pos()), "the statement jumps to the switch chunk", "returned jump targets "+pretty(dest)+", expected the switch chunk "+pretty(swChunk.id))
